@@ -220,6 +220,18 @@ def big_cases(tier, seed):
             [rng.randint(0, nflow + 1)], [a, None], [a, a + rng.choice([1, 16, 17, 32, 64, 100])],
             [a, None, rng.choice([1, 2, 7, 16])], [None, rng.randint(0, nflow + 1),
                                                    rng.choice([1, 3, 17])]])]
+    # flows of more than a thousand values through step Slices and filters
+    for i in range(12 if tier == "quick" else 150):
+        rng = gen.rng_for(seed, "C05huge", i)
+        nf = rng.choice([1030, 1100, 2100, 2600])
+        st = rng.choice([2, 3, 5, 7])
+        pre = [rng.choice([["slice", [0, None, st]], ["slice", [1, None, st]],
+                           ["slice", [rng.randint(0, 5), nf - rng.randint(0, 40), st]],
+                           ["slice", [None, None, st]]])]
+        if rng.random() < 0.5:
+            pre.insert(rng.randint(0, 1), ["call", rng.choice(CALLS)])
+        yield {"k": "chain", "pre": pre, "acc": rng.choice([["store", 1], ["sum"], ["fccount", "c"]]),
+               "post": [], "flow": list(range(nf)), "big": 1}
     for i in range(NBIG[tier]):
         rng = gen.rng_for(seed, "C05big", i)
         shape = i % 3
@@ -329,7 +341,9 @@ def drivers(r, obs):
     res.append(("fill-seq", outcome(d_fillseq)))
 
     bufsizes = list(range(1, n + 2)) + [1000, None]
-    if r.get("big"):
+    if r.get("big") and n > 1000:
+        bufsizes = [1, 999, 1000, 1024, 1025, n, None]
+    elif r.get("big"):
         # a long flow: block sizes around powers of two and around the flow length
         bufsizes = sorted(set([1, 2, 3, 7, 8, 9, 15, 16, 17, 31, 32, 33, 63, 64, 65, n - 1, n,
                                n + 1]) - {0, -1}) + [1000, None]
@@ -437,6 +451,41 @@ def drivers(r, obs):
         return outs[which]
     for which in (0, 1):
         res.append(("deep-copied-fill-compute-seq", outcome(lambda w=which: d_copies(w))))
+
+    # the pre elements wrapped in explicit FillInto adapters (what the sequence does implicitly)
+    def d_explicit():
+        pre, acc, post = build_chain(r)
+        s = lena.core.FillComputeSeq(*([lena.core.FillInto(e) for e in pre] + [acc] + post))
+        fill_until_stop(s, flow(), obs)
+        return s.compute()
+    res.append(("fill-compute-seq-of-explicit-FillInto-adapters", outcome(d_explicit)))
+
+    # a chain copied (deep copy / pickle) after k values; the copy gets the rest
+    def d_copied_midway(k, how):
+        import copy
+        import pickle
+        pre, acc, post = build_chain(r)
+        s = lena.core.FillComputeSeq(*(pre + [acc] + post))
+        vals = flow()
+        stopped = False
+        for v in vals[:k]:
+            try:
+                s.fill(v)
+            except lena.core.LenaStopFill:
+                stopped = True
+                break
+        c = copy.deepcopy(s) if how == "deepcopy" else pickle.loads(pickle.dumps(s))
+        if not stopped:
+            fill_until_stop(c, vals[k:], obs)
+        return c.compute()
+    if n >= 2:
+        for k in sorted(set([1, n // 2, n - 1])):
+            res.append(("fill-compute-seq-deep-copied-after-some-fills",
+                        outcome(lambda k=k: d_copied_midway(k, "deepcopy"))))
+        probe = outcome(lambda: d_copied_midway(n // 2, "pickle"))
+        if probe[0] == "ok" or probe[1] not in ("PicklingError", "AttributeError", "TypeError"):
+            # (chains of generated lambdas / local classes cannot be pickled at all)
+            res.append(("fill-compute-seq-pickled-after-some-fills", probe))
     return res
 
 
